@@ -431,11 +431,13 @@ def check(repo, run, tier):
     g(er.memo_discipline, repo, run, 'C09.R2')
     g(r4, repo, run)
     g(unitrules.errors_constructible, repo, run, 'C09.R5')
+    g(unitrules.list_path_table, repo, run, 'C09.R4')
     g.done()
 
 
 def mutants(repo):
     return [
+        Mutant('path-type-check-inverted', lambda r: in_func(r, 'NodePath.get_list_path', "        elif check_types:", "        elif not check_types:"), ['C09.R4']),
         Mutant('chain-condition-negated', lambda r: in_func(r, 'XRefNode.ayns.on_evaluate_impl', "while isinstance(curr, XRefNode):", "while not isinstance(curr, XRefNode):"), ['C09.R1']),
         Mutant('error-position-of-config-nodes', lambda r: in_func(r, 'Error.__init__', "if self.stage == 'parsing':", "if self.stage != 'parsing':"), ['C09.R5']),
         Mutant('F4-reverted-no-cycle-guard', lambda r: in_func(r, 'XRefNode.ayns.on_evaluate_impl',
